@@ -5,6 +5,7 @@
 import DateutilVerif.Proofs.TzObjEqICal
 import DateutilVerif.Proofs.TzObjEqStr
 import DateutilVerif.Proofs.TzStrWk
+import DateutilVerif.Proofs.TzObjEqLocal
 
 open Py DtPy ObjPy TzGen
 
@@ -114,3 +115,53 @@ theorem parse_weekday_has_week (s : String) (res : Res) (h : TzStr.parse s = .ok
 theorem gen_eq_model_zone_eq (a b : Zone) : Gen.tzrange_eq a b = .ok (zoneEq a b) := tzrange_eq_eq a b
 
 end C08
+
+/-! ### tzlocal (the zone record is the yearly rule the C library follows: `TZ.RangeZone`) -/
+
+namespace C08
+open TZ
+
+theorem gen_eq_model_tzlocal_naive_is_dst (z : RangeZone) (w f : Int) (fold att : Bool) (h0 : 0 ≤ f) (h1 : f < M) :
+    Gen.tzlocal_naiveIsDst z (D w f fold att) = .ok (b2i (localNaiveIsdst z w)) :=
+  local_naive_eq z w f fold att h0 h1
+
+theorem gen_eq_model_tzlocal_isdst (z : RangeZone) (w f : Int) (fold att fn : Bool) (h0 : 0 ≤ f) (h1 : f < M) :
+    Gen.tzlocal_isdst z (D w f fold att) fn = .ok (b2i (localIsdst z ⟨w, fold⟩)) :=
+  local_isdst_eq z w f fold att fn h0 h1
+
+theorem gen_eq_model_tzlocal_utcoffset (z : RangeZone) (w f : Int) (fold att : Bool) (h0 : 0 ≤ f) (h1 : f < M) :
+    Gen.tzlocal_utcoffset z (D w f fold att) = .ok (tdSeconds ((localZone z).utcoffset ⟨w, fold⟩)) ∧
+    Gen.tzlocal_dst z (D w f fold att) = .ok (tdSeconds ((localZone z).dst ⟨w, fold⟩)) :=
+  ⟨local_utcoffset_eq z w f fold att h0 h1, local_dst_eq z w f fold att h0 h1⟩
+
+/-- `tzlocal.tzname`: `time.tzname[isdst]` (the model carries no names for tzlocal) -/
+theorem gen_eq_model_tzlocal_tzname (z : RangeZone) (w f : Int) (fold att : Bool) (h0 : 0 ≤ f) (h1 : f < M) :
+    Gen.tzlocal_tzname z (D w f fold att) = .ok (if localIsdst z ⟨w, fold⟩ then z.dstAbbr else z.stdAbbr) :=
+  local_tzname_eq z w f fold att h0 h1
+
+end C08
+
+namespace C05
+open TZ
+
+theorem gen_eq_model_tzlocal_is_ambiguous (z : RangeZone) (w f : Int) (fold att : Bool) (h0 : 0 ≤ f) (h1 : f < M) :
+    Gen.tzlocal_isAmbiguous z (D w f fold att) = .ok (localIsAmbiguous z w) ∧
+    Gen.tzlocal_isAmbiguous z (D w f fold att) = .ok ((localZone z).isAmbiguous w) :=
+  ⟨local_isAmbiguous_eq z w f fold att h0 h1, local_isAmbiguous_eq z w f fold att h0 h1⟩
+
+theorem gen_eq_model_tzlocal_isdst (z : RangeZone) (w f : Int) (fold att fn : Bool) (h0 : 0 ≤ f) (h1 : f < M) :
+    Gen.tzlocal_isdst z (D w f fold att) fn = .ok (b2i (localIsdst z ⟨w, fold⟩)) :=
+  local_isdst_eq z w f fold att fn h0 h1
+
+end C05
+
+namespace C04
+open TZ
+
+/-- the offsets the generic `_tzinfo.fromutc` (C04.gen_eq_model_tzinfo_fromutc) reads for a tzlocal -/
+theorem gen_eq_model_tzlocal_utcoffset (z : RangeZone) (w f : Int) (fold att : Bool) (h0 : 0 ≤ f) (h1 : f < M) :
+    Gen.tzlocal_utcoffset z (D w f fold att) = .ok (tdSeconds ((localZone z).utcoffset ⟨w, fold⟩)) ∧
+    Gen.tzlocal_dst z (D w f fold att) = .ok (tdSeconds ((localZone z).dst ⟨w, fold⟩)) :=
+  ⟨local_utcoffset_eq z w f fold att h0 h1, local_dst_eq z w f fold att h0 h1⟩
+
+end C04
